@@ -463,7 +463,17 @@ def run_pstr(run):
     longer = ["aaaa", "abab", "a-b1", "11111", "ab" * 4, "é", "aé", "€€"]
     cases = []
     for d, length, pats in types:
-        pool = strings if d in [t[0] for t in types[:6]] else rng.sample(strings, cx.n(24, 85))
+        if d in [t[0] for t in types[:6]]:
+            pool = strings
+        else:
+            # mostly valid inputs: the strings of the grid the RFC reading accepts (all of them, up to a bound) and as many of the others
+            cre = [(py_pattern(p), inv) for p, inv in pats]
+            parts = parts_of(length)
+            good = [x for x in strings if valcomp.in_parts(len(x), parts) and all((c.fullmatch(x) is not None) != inv for c, inv in cre)]
+            bad = [x for x in strings if x not in set(good)]
+            rng.shuffle(good); rng.shuffle(bad)
+            good = good[:cx.n(20, 85)]
+            pool = good + bad[:max(8, min(len(good), cx.n(16, 85)))]
         for s in pool + longer:
             cases.append("validate %s %s" % (d, hx(s)))
         for s in (pool + longer)[::7]:
@@ -595,7 +605,26 @@ def run_idref(run):
     valcomp.laws_value(run, accepted, pairs)
 
 
+def distribution(cx):
+    """one line for the evidence: which member position won, reject reasons of the pattern strings, identityref verdicts per format"""
+    import collections
+    pos, pst, idr = collections.Counter(), collections.Counter(), collections.Counter()
+    for k, v in cx.dist.items():
+        if k.startswith("val:union:member="):
+            pos["member %s" % k.split("=")[1].split("/")[0]] += v
+        elif k == "val:union:no-member":
+            pos["no member"] += v
+        elif k.startswith("val:pstr:"):
+            pst[k.split(":", 2)[2]] += v
+        elif k.startswith("val:idref:"):
+            idr[k.split(":", 2)[2]] += v
+    fmt = lambda c: ", ".join("%s: %d" % kv for kv in sorted(c.items()))
+    cx.rule("val: distribution - union (value, hint set) cases by position of the winning member: %s | pattern strings: %s | identityref by format:verdict: %s"
+            % (fmt(pos), fmt(pst), fmt(idr)))
+
+
 def run_all(run):
     run_union(run)
     run_pstr(run)
     run_idref(run)
+    distribution(run.cx)
